@@ -27,9 +27,12 @@ bool idLess(const std::string& a, const std::string& b) {
 
 struct Snap {
   std::map<std::string, std::pair<uint32_t, std::string>> alt;  // id -> (status, rest of the line)
+  std::map<std::string, std::pair<uint32_t, std::string>> sp;   // "VBK v3" / "BTC b2" -> (status, rest of the line)
   std::set<std::string> tips;
   std::vector<std::string> other;  // every other line of the full observation
 };
+
+const uint32_t LEVEL_MASK = BLOCK_VALID_MASK;
 
 Snap snapshot(const vw::Registry& reg, const AltBlockTree& tree) {
   Snap s;
@@ -51,13 +54,23 @@ Snap snapshot(const vw::Registry& reg, const AltBlockTree& tree) {
       s.alt[t[1]] = {st, rest};
       continue;
     }
+    if (t.size() >= 3 && (t[0] == "VBK" || t[0] == "BTC") && t[1].size() >= 2 && (t[1][0] == 'v' || t[1][0] == 'b') &&
+        isdigit((unsigned char)t[1][1]) && t[1] != "best") {
+      uint32_t st = 0;
+      bool has = false;
+      std::string rest;
+      for (size_t i = 2; i < t.size(); i++) {
+        if (t[i].rfind("st=", 0) == 0) { st = (uint32_t)std::stoul(t[i].substr(3)); has = true; }
+        else rest += " " + t[i];
+      }
+      if (has) { s.sp[t[0] + " " + t[1]] = {st, rest}; continue; }
+    }
     s.other.push_back(line);
   }
   std::sort(s.other.begin(), s.other.end());
   return s;
 }
 
-const uint32_t LEVEL_MASK = BLOCK_VALID_MASK;
 
 // DESIGN section 7, C02: after a failed setState / non-negative compare every observable is unchanged except
 //   - BLOCK_FAILED_POP on the first failing block X of the target branch,
@@ -73,6 +86,18 @@ std::vector<std::string> checkUnchanged(const vw::Registry& reg, const Snap& b, 
     for (auto& l : b.other) if (!std::binary_search(a.other.begin(), a.other.end(), l)) { d += " -[" + l + "]"; if (d.size() > 600) break; }
     for (auto& l : a.other) if (!std::binary_search(b.other.begin(), b.other.end(), l)) { d += " +[" + l + "]"; if (d.size() > 1200) break; }
     bad.push_back("views differ:" + d);
+  }
+  // SP blocks: identical, except that the validity LEVEL of a VBK/BTC block may have been raised (an SP fork that was
+  // activated while the target branch was applied keeps its "can be applied" level; seen only with competing SP forks)
+  if (b.sp.size() != a.sp.size()) bad.push_back("SP block set changed");
+  for (auto& kv : b.sp) {
+    auto ia = a.sp.find(kv.first);
+    if (ia == a.sp.end()) { bad.push_back("SP block " + kv.first + " disappeared"); continue; }
+    if (ia->second.second != kv.second.second) bad.push_back("SP block " + kv.first + " changed:" + kv.second.second + " ->" + ia->second.second);
+    uint32_t sb = kv.second.first, sa = ia->second.first;
+    if (sb == sa) continue;
+    bool raised = ((sb & ~LEVEL_MASK) == (sa & ~LEVEL_MASK)) && (sa & LEVEL_MASK) > (sb & LEVEL_MASK);
+    if (!raised) bad.push_back("status of SP block " + kv.first + " " + std::to_string(sb) + " -> " + std::to_string(sa));
   }
   std::vector<std::string> path = reg.alt.count(target) ? reg.ancestry(target) : std::vector<std::string>{};
   std::string X;
